@@ -3,6 +3,7 @@ package c05
 
 import (
 	"fmt"
+	"net/http/httptest"
 	"strings"
 	"testing"
 
@@ -236,6 +237,12 @@ func propForwardAbort(t *rapid.T) {
 		xs = append(xs, w.NewScript("before", next))
 	}
 	fwd := w.NewScript("forwarder", chain.Op{K: chain.OpForward, S2: "/y"}, next)
+	if rapid.IntRange(0, 2).Draw(t, "abortBeforeForward") == 0 {
+		// the forwarder aborts its own chain first: the forwarded dispatch is a new chain that starts un-aborted
+		// (IsAborted() is false before anyone in it aborts)
+		fwd.Ops = append([]chain.Op{{K: chain.OpAbort}}, fwd.Ops...)
+		ev.Class("forwarder-aborted-before-forwarding")
+	}
 	xs = append(xs, fwd)
 	for i := 0; i < nAfter; i++ {
 		xs = append(xs, w.NewScript("after", next))
@@ -300,3 +307,72 @@ func propForwardAbort(t *rapid.T) {
 }
 
 func TestPropForwardAbort(t *testing.T) { rapid.Check(t, propForwardAbort) }
+
+// propAbortStaysInItsRequest: an abort belongs to the request whose handler called it.  Histories over {a request
+// that panics (OnPanic hook installed), a request that is refused by an aborting middleware, a plain request, a request
+// whose middleware serves a NESTED request - the refused one - through the same router before it calls Next()}.
+// Oracle: the refused request never reaches its main handler; every other request is un-aborted when it starts, is
+// still un-aborted after the nested request was refused, and runs its main handler exactly once.
+func propAbortStaysInItsRequest(t *rapid.T) {
+	ev.Case()
+	r := rux.New()
+	if rapid.IntRange(0, 3).Draw(t, "hook") > 0 {
+		r.OnPanic = func(c *rux.Context) { c.SetStatus(500) }
+	}
+	var log []string
+	note := func(s string) { log = append(log, s) }
+	abortKind := rapid.IntRange(0, 2).Draw(t, "abortKind")
+	r.GET("/boom", func(c *rux.Context) { panic("boom") })
+	r.GET("/deny", func(c *rux.Context) { note("deny-main") }, func(c *rux.Context) {
+		switch abortKind {
+		case 0:
+			c.Abort()
+		case 1:
+			c.AbortThen().SetStatus(403)
+		default:
+			c.AbortWithStatus(403)
+		}
+		note(fmt.Sprintf("deny-gate aborted=%v", c.IsAborted()))
+	})
+	r.GET("/plain", func(c *rux.Context) { note(fmt.Sprintf("plain-main aborted=%v", c.IsAborted())); c.WriteString("plain") })
+	r.GET("/outer", func(c *rux.Context) { note(fmt.Sprintf("outer-main aborted=%v", c.IsAborted())); c.WriteString("outer") },
+		func(c *rux.Context) {
+			note(fmt.Sprintf("outer-mw-enter aborted=%v", c.IsAborted()))
+			r.ServeHTTP(httptest.NewRecorder(), httptest.NewRequest("GET", "/deny", nil))
+			note(fmt.Sprintf("outer-mw-after-nested aborted=%v", c.IsAborted()))
+			c.Next()
+			note(fmt.Sprintf("outer-mw-leave aborted=%v", c.IsAborted()))
+		})
+	want := map[string]string{
+		"/deny":  "deny-gate aborted=true",
+		"/plain": "plain-main aborted=false",
+		"/outer": "outer-mw-enter aborted=false|deny-gate aborted=true|outer-mw-after-nested aborted=false|outer-main aborted=false|outer-mw-leave aborted=false",
+	}
+	hist := rapid.SliceOfN(rapid.SampledFrom([]string{"/boom", "/deny", "/plain", "/outer", "/outer"}), 2, 8).Draw(t, "history")
+	sawPanic := false
+	for i, p := range hist {
+		log = nil
+		rec := httptest.NewRecorder()
+		func() {
+			defer func() { _ = recover() }() // without a hook the panic leaves ServeHTTP, as documented
+			r.ServeHTTP(rec, httptest.NewRequest("GET", p, nil))
+		}()
+		ev.Eval()
+		if p == "/boom" {
+			sawPanic = true
+			continue
+		}
+		if got := strings.Join(log, "|"); got != want[p] {
+			t.Fatalf("request %d of %v: GET %s ran as\n   %s\nexpected\n   %s", i, hist, p, got, want[p])
+		}
+		if p == "/outer" && rec.Body.String() != "outer" {
+			t.Fatalf("request %d of %v: GET /outer answered %d %q", i, hist, rec.Code, rec.Body.String())
+		}
+		if p == "/outer" && sawPanic {
+			ev.Class("nested-refused-request-after-a-panic")
+			ev.NonTrivial(fmt.Sprint(hist[:i+1], abortKind), func() string { return fmt.Sprintf("history %v abortKind=%d", hist[:i+1], abortKind) })
+		}
+	}
+}
+
+func TestPropAbortStaysInItsRequest(t *testing.T) { rapid.Check(t, propAbortStaysInItsRequest) }
